@@ -23,7 +23,7 @@ From S3V Require Import gen.Tables.
 Import ListNotations.
 
 (** What was stored by notify_exception / notify_cancel_all_in_progress. *)
-Inductive exn := ECancel | EJob | ESubmit | ERename.
+Inductive xkind := ECancel | EJob | ESubmit | ERename.
 
 (** ghost: where the submitter is with a transfer *)
 Inductive substage := SNone | SQueued | SActive | SFinished.
@@ -32,7 +32,7 @@ Inductive jstatus := JNone | JQueued | JHeld (w : nat) | JCounted.
 
 Record trec := mkT {
   (* TransferState in the monitor *)
-  exc : option exn;           (* _exception *)
+  exc : option xkind;           (* _exception *)
   done : bool;                (* _done_event *)
   jtc : Z;                    (* _jobs_to_complete *)
   (* the two names in the destination directory; [written i]: the bytes of
@@ -366,7 +366,7 @@ Definition run (workers : nat) (l : list event) : state * option nat :=
 Fixpoint bits (f : nat -> bool) (n : nat) : list bool :=
   match n with O => [] | S k => bits f k ++ [f k] end.
 
-Definition obs_tr (r : trec) : (option exn * bool * Z) * (bool * bool * list bool) * (nat * nat) :=
+Definition obs_tr (r : trec) : (option xkind * bool * Z) * (bool * bool * list bool) * (nat * nat) :=
   ((exc r, done r, jtc r),
    (temp r, dest r, bits (written r) (match announced r with Some n => n | None => O end)),
    (ncounted r, nfin r)).
